@@ -20,7 +20,8 @@ StrProducers(s) == {   \* s: code points
   <<"element", Idx(Arr(<<Lit(VStr(s))>>), Num(0))>>,
   <<"function", Id1(Lit(VStr(s)))>>,
   <<"input", Call(Id("input"), <<>>)>> }
-StrVals == { <<"empty", <<>>>>, <<"abc", StrCps("abc")>>, <<"12", StrCps("12")>>, <<"b1.5", <<2535, 46, 2539>>>>, <<"k", StrCps("k")>> }
+StrVals == { <<"empty", <<>>>>, <<"abc", StrCps("abc")>>, <<"12", StrCps("12")>>, <<"b1.5", <<2535, 46, 2539>>>>, <<"k", StrCps("k")>>,
+             <<"yya", <<2488, 2478, 2527>>>> }       \* contains precomposed U+09DF: NFC would rewrite it
 
 IntProducers(n) == {   \* n: small non-negative TLC integer
   <<"literal", Num(n)>>,
@@ -37,7 +38,11 @@ BigProducers == {    \* 2^20 = 1048576 >= 10^6
   <<"literal", Lit(D("1048576"))>>, <<"arith", Bin("*", Num(1024), Num(1024))>>, <<"shift", Bin("<<", Num(1), Num(20))>>,
   <<"or0", Bin("|", Lit(D("1048576")), Num(0))>>, <<"pow", Bin("**", Num(2), Num(20))>>, <<"round", Call(Id("round"), <<Lit(D("1048576.2"))>>)>>,
   <<"function", Id1(Lit(D("1048576")))>> }
-NumVals == { <<"0", IntProducers(0)>>, <<"1", IntProducers(1)>>, <<"3", IntProducers(3)>>, <<"7", IntProducers(7)>>, <<"2p20", BigProducers>> }
+HugeProducers == {   \* 2^60: beyond 2^53 but exactly a double
+  <<"literal", Lit(D("1152921504606846976"))>>, <<"arith", Bin("*", Lit(D("1073741824")), Lit(D("1073741824")))>>, <<"shift", Bin("<<", Num(1), Num(60))>>,
+  <<"or0", Bin("|", Lit(D("1152921504606846976")), Num(0))>>, <<"pow", Bin("**", Num(2), Num(60))>>, <<"abs", Call(Id("abs"), <<Un("-", Lit(D("1152921504606846976")))>>)>>,
+  <<"function", Id1(Bin("<<", Num(1), Num(60)))>> }
+NumVals == { <<"0", IntProducers(0)>>, <<"1", IntProducers(1)>>, <<"3", IntProducers(3)>>, <<"7", IntProducers(7)>>, <<"2p20", BigProducers>>, <<"2p60", HugeProducers>> }
 
 (* ---- contexts with one hole h ---- *)
 BinOpsAll == {"+","-","*","/","%","**","<","<=",">",">=","==","!=","&","|","^","<<",">>"}
@@ -46,7 +51,9 @@ Ctx(h) ==
   \cup { <<"R" \o op \o "num", SPrint(Bin(op, Num(6), h))>> : op \in BinOpsAll }
   \cup { <<"L" \o op \o "str", SPrint(Bin(op, h, Str("x")))>> : op \in {"+", "==", "!=", "<"} }
   \cup { <<"R" \o op \o "str", SPrint(Bin(op, Str("x"), h))>> : op \in {"+", "==", "!=", "<"} }
-  \cup { <<"self==", SPrint(Bin("==", h, h))>>, <<"un-", SPrint(Un("-", h))>>, <<"un~", SPrint(Un("~", h))>>, <<"un!", SPrint(Un("!", h))>>,
+  \cup { <<"eq-stored", SPrint(Bin("==", h, Prop(Id("holder"), "k")))>>, <<"neq-stored", SPrint(Bin("!=", Prop(Id("holder"), "k"), h))>>,
+         <<"key-of-stored", SPrint(Call(Id("delkey"), <<Obj(<<"k", "abc", CpsStr(<<2488, 2478, 2527>>)>>, <<Num(1), Num(2), Num(3)>>), h>>))>>,
+         <<"self==", SPrint(Bin("==", h, h))>>, <<"un-", SPrint(Un("-", h))>>, <<"un~", SPrint(Un("~", h))>>, <<"un!", SPrint(Un("!", h))>>,
          <<"if", SIf(h, SPrint(Str("T")), SPrint(Str("F")))>>, <<"or", SPrint(Log("or", h, Str("R")))>>, <<"and", SPrint(Log("and", h, Str("R")))>>,
          <<"while", SWhile(h, SBlock(<<SPrint(Str("W")), SBreak>>))>>,
          <<"index", SPrint(Idx(Arr(<<Num(10), Num(20), Num(30), Num(40)>>), h))>>, <<"index-store", SExpr(IAsg(Id("arr4"), h, Num(9)))>>,
